@@ -38,6 +38,10 @@ def mk(cfg, world):
     if cfg["class_threshold"] is not None:
         cts = {EC.SERVER_ERROR: cfg["class_threshold"]}
         kw["class_thresholds"] = cts
+    if cfg.get("class_thresholds_multi"):
+        # several per-class thresholds at once (each class must keep its own history)
+        cts = {EC[k]: v for k, v in cfg["class_thresholds_multi"].items()}
+        kw["class_thresholds"] = cts
     if cfg.get("extra_trip"):
         kw["trip_on"] = trip | {EC[k] for k in cfg["extra_trip"]}
     eff = kw["trip_on"]
@@ -227,6 +231,9 @@ def work(ctx, tier):
             elif rng.random() < 0.4:
                 cfg["trip_mode"] = rng.choice(["default", "none-arg", "empty"])
                 cfg["empty_kind"] = rng.randrange(4)
+            if rng.random() < 0.35:
+                cfg["class_thresholds_multi"] = {k_: rng.randint(1, 3) for k_ in rng.sample(["TRANSIENT", "SERVER_ERROR", "RATE_LIMIT", "UNKNOWN"], rng.randint(2, 3))}
+                ctx.cnt["configs_with_several_class_thresholds"] += 1
             ctx.cnt["trip_mode:" + cfg.get("trip_mode", "explicit")] += 1
             alpha = alphabet(cfg) + [("fail", "UNKNOWN"), ("fail", "RATE_LIMIT"), ("adv", 0.0), ("adv", cfg["window"] * 3)]
             weights = [3 if o[0] == "fail" else 2 if o[0] == "allow" else 1 for o in alpha]
@@ -241,6 +248,9 @@ def work(ctx, tier):
             if rng.random() < 0.3:
                 cfg["trip_mode"] = rng.choice(["default", "none-arg", "empty"])
                 cfg["empty_kind"] = rng.randrange(4)
+            if rng.random() < 0.3:
+                cfg["class_thresholds_multi"] = {k_: rng.randint(1, 3) for k_ in rng.sample(["TRANSIENT", "SERVER_ERROR"], 2)}
+                ctx.cnt["configs_with_several_class_thresholds"] += 1
             ctx.cnt["trip_mode:" + cfg.get("trip_mode", "explicit")] += 1
             ops = macro_history(rng, cfg)
             run_history(ctx, cfg, ops, viol, world)
@@ -266,6 +276,7 @@ def conclude(ctx):
         "trip_mode:default": (ctx.cnt["trip_mode:default"], 100),
         "trip_mode:empty": (ctx.cnt["trip_mode:empty"], 100),
         "op:fail:open": (ctx.cnt["op:fail:open"], 500),
+        "configs_with_several_class_thresholds": (ctx.cnt["configs_with_several_class_thresholds"], 200),
     }
     L = 4 if ctx.tier == "quick" else 6
     return dict(
